@@ -17,7 +17,7 @@ theorem UpdFamFp.check_reach_ok {p : Profile} {i : Input}
     (hposAll : ∀ r, r ≠ [] → U.N r ≠ 0)
     (hes : ∀ e ∈ es, IpEntryOk v6 e) (hp : ap = false → ∀ e ∈ es, e.pid = 0)
     (hfin : sortAttrs (fin.map canonAttr) = sortAttrs (attrs.map canonAttr)) :
-    check i (run p i) = .ok := by
+    check i (run p i) = .ok ∧ ∃ n s dec, run p i = .obs n s dec .t := by
   apply U.check_ok hmsg es rfl hne hS hb henc hmaxF (by rw [hmsg]; rfl)
   · intro frames
     simp only [opaqueClause, hmsg]
@@ -41,7 +41,7 @@ theorem UpdFamFp.check_unreach_ok {p : Profile} {i : Input}
     (hQ : ∀ r, U.Q r = qUnreach legacy f ((r.take (U.N r)).map (decE v6 ap)))
     (hposAll : ∀ r, r ≠ [] → U.N r ≠ 0)
     (hes : ∀ e ∈ es, IpEntryOk v6 e) (hp : ap = false → ∀ e ∈ es, e.pid = 0) :
-    check i (run p i) = .ok := by
+    check i (run p i) = .ok ∧ ∃ n s dec, run p i = .obs n s dec .t := by
   apply U.check_ok hmsg es rfl hne hS hb henc hmaxF (by rw [hmsg]; rfl)
   · intro frames
     simp only [opaqueClause, hmsg]
@@ -68,7 +68,8 @@ theorem maxLen_enc (i : Input) : (negotiate i.loc i.rem).maxLen = maxFrame i := 
 theorem maxLen_peer (i : Input) : (negotiate i.rem i.loc).maxLen = maxFrame i := by
   rw [negotiate_maxLen_comm i.loc i.rem]; exact maxLen_enc i
 
-theorem master_unreach (p : Profile) (i : Input) (h : domUnreach i = true) : check i (run p i) = .ok := by
+theorem master_unreach (p : Profile) (i : Input) (h : domUnreach i = true) :
+    check i (run p i) = .ok ∧ ∃ n s dec, run p i = .obs n s dec .t := by
   unfold domUnreach at h
   cases hm : i.msg with
   | «open» a b c d => simp [hm] at h
@@ -146,7 +147,8 @@ theorem sortAttrs_wire (attrs : List Attr) (h : ∀ a ∈ attrs, attrOk a = true
   intro a ha
   exact canonAttr_wireAttr a (h a ha)
 
-theorem master_reach (p : Profile) (i : Input) (h : domReach i = true) : check i (run p i) = .ok := by
+theorem master_reach (p : Profile) (i : Input) (h : domReach i = true) :
+    check i (run p i) = .ok ∧ ∃ n s dec, run p i = .obs n s dec .t := by
   unfold domReach at h
   cases hm : i.msg with
   | «open» a b c d => simp [hm] at h
